@@ -8,7 +8,7 @@
 (***************************************************************************)
 EXTENDS PaintTraverse, Json
 
-CONSTANTS N, Kinds, MaxChain
+CONSTANTS N, Kinds, MaxChain, Clips
 
 VARIABLES G, cached
 
@@ -31,7 +31,10 @@ ReachFrom(g, todo, seen) ==
        IN ReachFrom(g, (todo \cup ks) \ (seen \cup {n}), seen \cup {n})
 AllReachable(g) == ReachFrom(g, {1}, {}) = Nodes
 
-Init == G \in {g \in Graphs : AllReachable(g)} /\ cached \in BOOLEAN
+\* optionally mark base glyphs (the root and colrglyph targets) as having a clip box
+WithClips(g) == IF ~Clips THEN {g}
+                ELSE {[n \in Nodes |-> [kind |-> g[n].kind, kids |-> g[n].kids, clip |-> n \in cs]] : cs \in SUBSET Nodes}
+Init == G \in UNION {WithClips(g) : g \in {x \in Graphs : AllReachable(x)}} /\ cached \in BOOLEAN
 Spec == Init /\ [][UNCHANGED <<G, cached>>]_<<G, cached>>
 
 R == Paint(G, 1, cached)
@@ -43,10 +46,15 @@ CaseDump == PrintT(<<"CASE", ToJson([nodes |-> G, cached |-> cached, res |-> R.r
                                      bound |-> WorkLimit(G, 1, cached)])>>)
 \* chains  k1 -> k2 -> ... -> solid  (for the depth limit and the cost of nested PaintGlyph)
 ChainOf(kindseq) == [i \in 1..(Len(kindseq) + 1) |->
-                      IF i <= Len(kindseq) THEN [kind |-> kindseq[i], kids |-> <<i + 1>>] ELSE [kind |-> "solid", kids |-> <<>>]]
+                      IF i <= Len(kindseq)
+                      THEN [kind |-> kindseq[i], kids |-> IF kindseq[i] = "composite" THEN <<i + 1, Len(kindseq) + 1>> ELSE <<i + 1>>]
+                      ELSE [kind |-> "solid", kids |-> <<>>]]
+Alt(n, a, b) == [i \in 1..n |-> IF i % 2 = 1 THEN a ELSE b]
 InitChains == /\ G \in {ChainOf([i \in 1..n |-> k]) : n \in 1..MaxChain, k \in {"glyph", "transform"}} \cup
                        {ChainOf([i \in 1..n |-> IF i % 2 = 0 THEN "glyph" ELSE "transform"]) : n \in 1..MaxChain} \cup
-                       {ChainOf([i \in 1..n |-> IF i % 3 = 0 THEN "transform" ELSE "glyph"]) : n \in 1..MaxChain}
+                       {ChainOf([i \in 1..n |-> IF i % 3 = 0 THEN "transform" ELSE "glyph"]) : n \in 1..MaxChain} \cup
+                       {ChainOf(Alt(n, "glyph", k)) : n \in 1..MaxChain, k \in {"layers", "colrglyph", "composite"}} \cup
+                       {ChainOf(Alt(n, k, "glyph")) : n \in 1..MaxChain, k \in {"layers", "colrglyph", "composite"}}
               /\ cached = FALSE
 SpecChains == InitChains /\ [][UNCHANGED <<G, cached>>]_<<G, cached>>
 KindsAll == {"solid", "transform", "glyph", "composite", "layers", "colrglyph"}
